@@ -69,4 +69,17 @@ PROPS = {
             "the reload counter never wraps (2^64 reloads)",
         ],
     },
+    "C12": {
+        "modules": ["AmVerif.Props.C12"],
+        "engines": [{"name": "watch", "quick": 120, "thorough": 1500}],
+        "rule": "cases 0-5: one per notification kind (create, modify, rename, delete, any, access), every valid entry up to depth 3 (root, dir, file with / without extension, non-ASCII) spelled plainly and with three `.` / `zz/..` detour patterns; case 6: three roots (disjoint, nested, dotted name) x all kinds x depth<=2; case 7: raw id_of_path / events over 12 not-expressible names (dotted, hidden, non-UTF-8, `..`) as inner and last component, paths at / above / beside the root, relative and literal roots; case 8: path_of over valid and odd ids and back; case 9: disconnected channel; later cases random mixes (60% scenarios, raw events, raw ids, path_of, Err events, receiver drop); thorough: every 8th case is a real create/modify/rename/delete history under the real FsWatcherBuilder with sentinel barriers. A case is non-trivial when it ran at least one id_of_path / event / path_of; distinct = distinct op transcripts",
+        "trusted": COMMON_TRUSTED + [
+            "modelled, not verified: std::path::Path::components() (the harness tokenises every path with it; parent / strip_prefix / file_name / file_stem / extension / == are re-implemented on component lists in the model), notify (event delivery; events are synthesised except in the real-watcher cases), the OS file system (is_dir is a parameter of the model, read from the real file system by the harness when the event is handled), crossbeam channel (connected / disconnected)",
+        ],
+        "assumptions": [
+            "std::path parses a path into the component list the harness reports; Normal components are never empty, `.` or `..`",
+            "ids and extensions contain no path separator or NUL (path_of_entry is not modelled otherwise)",
+            "inotify delivers events in the order the operations happened (sentinel technique, real-watcher cases only)",
+        ],
+    },
 }
